@@ -172,7 +172,9 @@ def norm(x):
     return x
 
 
-REFLECTED_OK = set()     # reflected operand forms that have been seen to work in this process: from then on they must keep working
+# the reflected operand forms the public operators accept (tests/test_geometry.py asserts the first and third; Area has no __mul__ of its own
+# and relies on the pose's reflected product): a form python now rejects is a pose that no longer acts on that operand through `*`
+REFLECTED_OK = {'position * pose', 'area * pose', 'orientation * pose'}
 
 
 def oracles(ctx):
@@ -218,7 +220,7 @@ def oracles(ctx):
                            ('orientation * pose', same_or_raises(lambda: o * t1, t1 * o))):
             base_ok = True
             if got is False or (got is None and label in REFLECTED_OK):
-                ctx.violation(f'reflected product `{label}` does not agree with the plain product', {'t': [t1.position.yx, t1.orientation.name], 'p': p.yx, 'o': o.name})
+                ctx.violation(f'reflected product `{label}` ' + ('is rejected with a TypeError' if got is None else 'does not agree with the plain product'), {'t': [t1.position.yx, t1.orientation.name], 'p': p.yx, 'o': o.name})
             elif got is True:
                 REFLECTED_OK.add(label)
         tt = _copy.deepcopy(t1)
